@@ -77,7 +77,7 @@ func vfNewHTTPProxy(cfg HTTPProxyConfig) *HTTPProxy {
 	}
 	hp.proxy.DialContext = func(context.Context, string, string) (net.Conn, error) {
 		vfDials++
-		return nil, errors.New("harness: no network")
+		return nil, &net.OpError{Op: "dial", Net: "tcp", Err: errors.New("connection refused")}
 	}
 	return hp
 }
